@@ -57,6 +57,15 @@ Inductive ccase :=
 | CTo (tb : unconv_table) (i : hinst) (exp : result etree)                          (* instance.to_etree() *)
 | CSat (i : hinst) (exp : bool).                                                    (* independent validator over a real instance, every depth *)
 
+(** on a case where model and implementation disagree: does the MODEL refuse the input (while the implementation built an instance)?
+    Used by the search for a failing input: an instance the implementation accepts although the modelled constraints refuse it. *)
+Definition ccase_model_rejects (S : schema) (c : ccase) : bool :=
+  match c with
+  | CFrom tb e _ => match from_etree hval (tconv tb) S e with Err _ => true | OK _ => false end
+  | CCons tb cn args kw _ => match construct hval (tconv tb) S cn args kw with Err _ => true | OK _ => false end
+  | _ => false
+  end.
+
 Definition ccase_ok (S : schema) (c : ccase) : bool :=
   match c with
   | CFrom tb e exp =>
